@@ -233,15 +233,20 @@ class FNum(object):
         if nd > 15 or nd < 0:
             raise EngineError('ndigits outside 0..15')
         p = float(10 ** nd)
+        key = ('round', s.f.get_id(), nd, to_int)
+        hit = ctx.memo.get(key)
+        if hit is not None:
+            return hit                                   # the same term rounds to the same value
+        ctx.memo.setdefault('keep', []).append(s.f)
         ctx.assume(z3.fpLT(z3.fpAbs(s.f), fpv(2.0 ** 40)))
         k = z3.FP(ctx.fresh_name('roundk'), D)
         res = z3.FP(ctx.fresh_name('round'), D)
         scaled = z3.fpMul(RNE, s.f, fpv(p))
         ctx.assume(z3.And(z3.fpEQ(k, z3.fpRoundToIntegral(RNE, k)), z3.fpLEQ(z3.fpAbs(z3.fpSub(RNE, k, scaled)), fpv(0.5 + 2.0 ** -20)),
                           z3.fpEQ(res, z3.fpDiv(RNE, k, fpv(p)))))
-        if to_int:
-            return FInt(z3.fpToSBV(RTZ, res, z3.BitVecSort(W)))
-        return FNum(res)
+        out = FInt(z3.fpToSBV(RTZ, res, z3.BitVecSort(W))) if to_int else FNum(res)
+        ctx.memo[key] = out
+        return out
 
     def __format__(s, spec):
         _ctx().path.notes.append(('format', s, spec))
